@@ -117,6 +117,8 @@ def gen_param_store(rng, sol, p, apis=('cxx',), steps=60, variant='exc'):
                 n = rng.choice([0, 0, 1, 2, 3, 5, 8])
                 S.append(['setv', p, a, rng.choice(e['vecs']), n] + [hexf(exact_double(rng, -9, 9)) for _ in range(n)])
                 S.append(['getv', p, a, rng.choice(e['vecs'])])
+                if rng.random() < 0.5:      # a failing lookup right after a successful one
+                    S.append(['getv', p, pick_api(rng, p, apis), rng.choice(badv)])
             else:
                 S.append(['getv', p, a, rng.choice(badv)])
         elif r < 0.95:
@@ -258,20 +260,30 @@ def gen_purity_pair(rng, sol, group, **kw):
 
 # ------------------------------------------------------------------------------------------------
 def gen_sentinel(rng, sol, variant='exc', per=2):
-    """C15: every public overload the solution does not provide, at random arguments, both precisions."""
+    """C15: every public overload the solution does not provide, at random arguments, both precisions.  While
+    precision p is probed, the OTHER precision's registry has a solution selected that DOES provide the overload
+    (when one exists), so an evaluator that looks in the wrong registry returns a plausible number."""
     e = CAT[sol]
     caps = set(map(tuple, e['caps'])) | set(map(tuple, e['fcaps']))
     S = []
     for p in ('d', 'ld'):
+        q = 'ld' if p == 'd' else 'd'
         S.append(['init', p, 'cxx', 'h', sol])
         if not e['fixture']:
             S += sweep([('h', sol)], p, None, restore=False)
+        groups = {}
         for fn, sig in all_overloads():
             if (fn, sig) in caps:
                 continue
-            for _ in range(per):
-                pt = [hexf(exact_double(rng, -3, 3)) for ch in sig if ch == 'S']
-                S.append(eval_line(p, 'cxx', fn, sig, pt, rng.randint(-1, 5)))
+            prov = [n for n in NONFIX if n != sol and [fn, sig] in CAT[n]['caps']]
+            groups.setdefault(prov[0] if prov else None, []).append((fn, sig))
+        for prov, ovs in groups.items():
+            if prov:
+                S.append(['init', q, 'cxx', 'other', prov])
+            for fn, sig in ovs:
+                for _ in range(per):
+                    pt = [hexf(exact_double(rng, -3, 3)) for ch in sig if ch == 'S']
+                    S.append(eval_line(p, 'cxx', fn, sig, pt, rng.randint(-1, 5)))
         if not e['fixture']:
             S += sweep([('h', sol)], p, None, restore=False)
     return Execution(S, variant=variant, label='sentinel:%s' % sol)
@@ -643,3 +655,49 @@ def gen_reduction(rng, big, small, zero, eqs, extra, npts=3, nassign=2, variant=
                     S.append(['select', p, 'cxx', 'small'])
                     S.append(eval_line(p, 'cxx', es[0], es[1], [hexf(v) for v in base]) + ['pair:r%d' % lab])
     return Execution(S, variant=variant, label='reduction:%s->%s' % (big, small))
+
+
+# ------------------------------------------------------------------------------------------------
+# C19: memory histories
+# ------------------------------------------------------------------------------------------------
+def gen_init_orders(rng, variant='exc', alloc=False, fill=None):
+    """every solution type initialised in a random order, each three times in a row on the same handle (memory in
+    use must be the same after the 2nd and the 3rd), then again on distinct handles; vector parameters of changing
+    length through both interfaces, C arrays of length 0..8; sweeps"""
+    names = [e['name'] for e in CATALOG]
+    order = list(names); rng.shuffle(order)
+    S = []
+    for n in order:
+        p = rng.choice(['d', 'd', 'ld'])
+        for _ in range(3):
+            S.append(['init', p, 'cxx', 'slot', n])
+        if not CAT[n]['fixture']:
+            S.append(['sanity', p, 'cxx'])
+            for k in CAT[n]['vecs']:
+                for ln in (0, 1, 8, 3, 0, 5):
+                    a = 'c' if (p == 'd' and rng.random() < 0.5) else 'cxx'
+                    S.append(['setv', p, a, k, ln] + [hexf(exact_double(rng, 0.5, 2.0)) for _ in range(ln)])
+                    S.append(['getv', p, 'c' if p == 'd' else 'cxx', k])
+                    S.append(['sanity', p, 'cxx']); S.append(['dispv', p, 'cxx'])
+                    for fn, sig in map(tuple, CAT[n]['caps']):
+                        if ln > 0:
+                            S.append(eval_line(p, 'cxx', fn, sig, admissible_point(rng, n, sig), rng.randint(0, 6)))
+            # vectors of unequal length, one of them shorter than the others by more than its capacity
+            if len(CAT[n]['vecs']) > 1:
+                for short in CAT[n]['vecs']:
+                    S.append(['init', p, 'cxx', 'slot', n])      # a fresh object: default capacities
+                    for k in CAT[n]['vecs']:
+                        if k != short:
+                            S.append(['setv', p, 'cxx', k, 60] + [hexf(exact_double(rng, 0.5, 2.0)) for _ in range(60)])
+                    for fn, sig in map(tuple, CAT[n]['caps']):
+                        S.append(eval_line(p, 'cxx', fn, sig, admissible_point(rng, n, sig), 1))
+            S.append(['initp', p, 'cxx'])
+            for fn, sig in rng.sample(list(map(tuple, CAT[n]['caps'])), min(3, len(CAT[n]['caps']))):
+                S.append(eval_line(p, 'cxx', fn, sig, admissible_point(rng, n, sig), rng.randint(-1, 4)))
+    for i, n in enumerate(rng.sample(names, 8)):
+        S.append(['init', 'd', 'c', 'h%d' % i, n]); S.append(['init', 'ld', 'cxx', 'h%d' % i, n])
+    S.append(['list', 'd', 'cxx']); S.append(['list', 'ld', 'cxx'])
+    S.append(['printid', 'd']); S.append(['printid', 'ld'])
+    for i in range(8):
+        S.append(['select', 'd', 'cxx', 'h%d' % i]); S.append(['name', 'd', 'c'])
+    return Execution(S, variant=variant, alloc=alloc, fill=fill, label='init_orders')
